@@ -146,6 +146,22 @@ class Ctx:
         return n
 
 
+def run_module(mod, ctx):
+    """evaluate a property module; a rule that cannot read the code in front of it (an exception inside the rule) fails CLOSED:
+    it is reported as a violated anchor obligation, like a renamed anchor function, never as a silent pass or a crashed check"""
+    import traceback
+    try:
+        mod.run(ctx)
+    except SystemExit:
+        raise
+    except Exception as e:  # noqa: BLE001
+        tb = traceback.extract_tb(e.__traceback__)
+        where = next((f for f in reversed(tb) if "/rules/props/" in f.filename), tb[-1])
+        ctx.ob("engine", "<rule-engine>", "rules-of-%s-evaluate-on-this-tree" % os.path.basename(where.filename).replace(".py", ""), False,
+               "a rule could not be evaluated on this tree (%s: %s at %s:%d): the code it reads has a shape the rule does not know (an anchor changed) — failing closed" % (
+                   type(e).__name__, str(e)[:80], os.path.basename(where.filename), where.lineno), kind="anchor")
+
+
 # ------------------------------------------------------------------ known findings
 def load_known():
     p = os.path.join(VERIF, "known_findings.json")
